@@ -41,6 +41,11 @@ class Top(V):
         return f"TOP({self.why})"
 
 
+def undecidable(*vals):
+    """True when a value the rule needs did not evaluate to a symbolic quantity (the rule must abstain)"""
+    return any(v is None or isinstance(v, Top) or "TOP(" in v.text() or "opaque:" in v.text() for v in vals)
+
+
 class NoneV(V):
     def text(self):
         return "None"
@@ -486,6 +491,8 @@ class Interp:
                 el = self.ev(node.elt, s2)
                 return Opaque(f"map({el.text()} over {base})", (el, itv))
         return Top("listcomp")
+
+    ev_GeneratorExp = ev_ListComp      # consumed at once by tuple()/list()/np.prod(): the same element sequence
 
     def ev_BinOp(self, node, st):
         a, b = self.ev(node.left, st), self.ev(node.right, st)
